@@ -516,6 +516,7 @@ func c09R5(p *core.Program, r *core.Report, sc *scanClosure) {
 		return found
 	}
 	// assertsSnippet: n (or an in-package helper / local closure called from n) tests its argument against Snippet
+	mixed := "" // a condition in which the answer of that test is combined with something else
 	var assertsSnippet func(n ast.Node, finfo *types.Info, depth int) bool
 	assertsSnippet = func(n ast.Node, finfo *types.Info, depth int) bool {
 		found := false
@@ -532,6 +533,49 @@ func c09R5(p *core.Program, r *core.Report, sc *scanClosure) {
 			case *ast.TypeAssertExpr:
 				if x.Type != nil && core.NamedTypeName(finfo.TypeOf(x.Type)) == core.G("pkg/gengo/snippet.Snippet") {
 					found = true
+					// ... and it decides alone: the comma-ok answer is not combined with anything else
+					if root, isNode := n.(ast.Node); isNode {
+						for _, anc := range core.PathTo(root, x) {
+							as, isAs := anc.(*ast.AssignStmt)
+							if !isAs || len(as.Lhs) != 2 || len(as.Rhs) != 1 || ast.Unparen(as.Rhs[0]) != ast.Expr(x) {
+								continue
+							}
+							okv := core.VarOf(finfo, as.Lhs[1])
+							if okv == nil {
+								continue
+							}
+							ast.Inspect(root, func(q ast.Node) bool {
+								var cond ast.Expr
+								switch y := q.(type) {
+								case *ast.IfStmt:
+									cond = y.Cond
+								case *ast.ForStmt:
+									cond = y.Cond
+								}
+								if cond == nil {
+									return true
+								}
+								mentions := false
+								ast.Inspect(cond, func(z ast.Node) bool {
+									if id, isID := z.(*ast.Ident); isID && finfo.ObjectOf(id) == types.Object(okv) {
+										mentions = true
+									}
+									return true
+								})
+								if !mentions {
+									return true
+								}
+								c := ast.Unparen(cond)
+								if u, isNot := c.(*ast.UnaryExpr); isNot && u.Op == token.NOT {
+									c = ast.Unparen(u.X)
+								}
+								if id, isID := c.(*ast.Ident); !isID || finfo.ObjectOf(id) != types.Object(okv) {
+									mixed = "`" + core.ExprStr(cond) + "`"
+								}
+								return true
+							})
+						}
+					}
 				}
 			case *ast.CallExpr:
 				if depth < 2 {
@@ -552,7 +596,10 @@ func c09R5(p *core.Program, r *core.Report, sc *scanClosure) {
 	}{{'T', "ID", "Value"}, {'v', "Value", "ID"}} {
 		cc := clauses[int64(verb.c)]
 		ok := refers(cc, verb.want) && !refers(cc, verb.no) && countCalls(cc, getArg) == 1
+		mixed = ""
 		snippetArm := assertsSnippet(cc, info, 0)
+		r.Check(mixed == "", rule, sc.f, fmt.Sprintf("%%%c: an argument that is a snippet is rendered as itself, whatever it renders", verb.c), cc.Pos(), "the test against Snippet decides alone",
+			"whether a nested snippet is rendered as itself also depends on "+mixed+": a snippet for which that fails (an empty one) is handed to "+verb.want+" as a plain value and rendered as a Go literal of the snippet object (or panics as an unsupported type)")
 		r.Check(ok && snippetArm, rule, sc.f, fmt.Sprintf("%%%c renders through %s (nested snippets as themselves), one argument consumed", verb.c, verb.want), cc.Pos(),
 			"clause fetches one argument, tests it against Snippet (directly or in a helper) and otherwise wraps it with "+verb.want, fmt.Sprintf("the %%%c arm does not (only) render through %s with a nested-snippet arm and exactly one argument fetch", verb.c, verb.want))
 	}
@@ -653,6 +700,28 @@ func c09R6(p *core.Program, r *core.Report, sc *scanClosure) {
 			}
 			if !stored {
 				okAll, why = false, "the format parameter is not stored unmodified"
+			}
+			// the value owns its bindings: a map-typed field of the literal is a map made here, never the caller's
+			// (rendering is lazy: what is read at render time must be what was bound when the constructor ran)
+			for _, el := range cl.Elts {
+				if kv, isKV := el.(*ast.KeyValueExpr); isKV {
+					if t := cinfo.TypeOf(kv.Value); t != nil && isMapType(t) {
+						val, _ := core.Resolve(cinfo, cf.Body, kv.Value)
+						fresh := false
+						switch x := ast.Unparen(val).(type) {
+						case *ast.CompositeLit:
+							fresh = true
+						case *ast.CallExpr:
+							switch core.CalleeName(cinfo, x) {
+							case "builtin.make", "maps.Clone", "maps.Collect":
+								fresh = true
+							}
+						}
+						if !fresh {
+							okAll, why = false, "the map `"+core.ExprStr(kv.Value)+"` is kept as the value's own bindings: it is the caller's map, and a caller that reuses or edits it after the call changes what an earlier template renders"
+						}
+					}
+				}
 			}
 			return true
 		})
